@@ -199,7 +199,8 @@ def run_kani(crate, scratch, h, prop, extra_args=(), tag="", extra_cfg=(), timeo
     solver = os.environ.get("VERIF_SOLVER", h.solver)
     solvers = ["minisat", "cadical"] if solver == "portfolio" else [solver]
     env = dict(os.environ)
-    env["RUSTFLAGS"] = " ".join(["--cfg", prop] + ["--cfg %s" % c for c in extra_cfg] + ["-A", "warnings"])
+    tier_cfg = ["vp_full_probe"] if os.environ.get("VERIF_TIER_EFFECTIVE") == "thorough" else []
+    env["RUSTFLAGS"] = " ".join(["--cfg", prop] + ["--cfg %s" % c for c in list(extra_cfg) + tier_cfg] + ["-A", "warnings"])
     env["CARGO_NET_OFFLINE"] = "true"
     env["VERIF_TAB"] = str(int(os.environ.get("VERIF_SEED", "0") or 0) % 15)
     timeout = h.timeout * timeout_factor * (3 if os.environ.get("VERIF_SLOW") else 1)
@@ -367,6 +368,11 @@ def classify(res, prop, h):
                 notes.append("assertion of other properties failed (%s): %s" % (",".join(tg), c["desc"]))
             continue
         # untagged: CBMC built-in checks (pointer safety, overflow, panics ...)
+        if re.search(r"verif/harness/\w+\.rs:\d+:\d+ in function verif_harness::", c["loc"]) and "dereference" not in c["desc"]:
+            # arithmetic / panic inside the harness's own code: a harness defect, never a verdict
+            inconclusive = True
+            notes.append("built-in check failed inside the harness code (harness defect): %s @ %s" % (c["desc"], c["loc"]))
+            continue
         if prop in MEMSAFE_OWNERS:
             failures.append(dict(c, cls="builtin"))
         else:
@@ -751,6 +757,7 @@ def main(argv):
     if tier not in ("quick", "thorough"):
         tier = "quick"
     seed = int(os.environ.get("VERIF_SEED", "0") or 0)
+    os.environ["VERIF_TIER_EFFECTIVE"] = tier
     return check_property(prop, tier, seed)
 
 
